@@ -97,8 +97,15 @@ def analyse(W, name, f, ctx, desc, path):
         tv = tr[a]
         if mv is UNKNOWN:
             continue
+        lost = any(s.startswith(("home.", "probe-stop.")) for s in mv.symbols())
         if isinstance(tv, Const) and tv.v is None:
-            continue        # the builder reports the axis as unknown: no claim to check
+            if lost:
+                continue    # homed / probed: the interpreter does not know the coordinate either, and the builder says so
+            bad = True
+            items.append(("viol", "R3", f"{name}:{a}:forgotten:{'rejected' if path.outcome == 'raise' else 'accepted'}",
+                          f"{entry}: the emitted program leaves the machine at {a.upper()} = {mv.key()}, a coordinate the program determines, "
+                          f"but the builder reports {a.upper()} as unknown", where))
+            continue
         if isinstance(tv, Num) and tv.p == mv:
             continue
         bad = True
